@@ -229,7 +229,10 @@ func (s *fsm12) finish(ctx context.Context, c Conn) (State, error) {
 	select {
 	case state := <-c.RecvHandshake():
 		close(state.Done)
-		if s.state.IsClient {
+		// The side that sent the last flight of the handshake (the server in a
+		// full handshake, the client in an abbreviated one) re-sends it when the
+		// peer retransmits; the other side has nothing to repeat.
+		if !s.currentFlight.IsLastSendFlight() {
 			return StateFinished, nil
 		}
 
